@@ -99,6 +99,12 @@ def run(ctx: Ctx) -> None:
     md = MarkdownIt("commonmark")
     n = 2500 if quick else 60000
     corpus = ["<pre>\na\n\nb\n</pre>\nokay\n"]     # known finding K-C06-1 (always exercised)
+    # quotes interrupted by a lazy line and resumed: the second quote re-reads line tables the first one restored
+    for q1 in ("> a", "> a\n> b", "> - a", "> ```\n> c\n> ```", ">     code", "> a\n>\n> b", "> # h", "> 1. x\n>    y"):
+        for lz in ("lazy", "  lazy", "lazy\nmore"):
+            for q2 in ("> c", "> c\n> d", ">> e", ">\n> f", "> - g\n>   h", ">     code2"):
+                for tail in ("", "\ntail", "- end"):
+                    corpus.append(q1 + "\n" + lz + "\n" + q2 + "\n" + (tail + "\n" if tail else ""))
     for i in range(-len(corpus), n):
         D = corpus[i] if i < 0 else (gens.struct_doc(rng, 2) if i % 4 == 1 else gens.rand_doc(rng, 5) if i % 4 else next(gens.doc_stream(rng, 1, 5)))
         D = D.replace("\t", " ").replace("\r", "").replace("\x00", "")
@@ -112,7 +118,7 @@ def run(ctx: Ctx) -> None:
         depth = rng.randint(1, 3 if quick else 6)
         for _ in range(depth):
             try:
-                if i >= 0 and rng.random() < 0.5:
+                if (i >= 0 or i > -len(corpus)) and rng.random() < 0.5:
                     r = check_quote(md, cur)
                     step = ("quote",)
                     nxt = quote(cur)
